@@ -137,7 +137,7 @@ pub fn run(tier: Tier, rep: &mut Report) -> (String, String) {
     rep.merge(r);
     // family 2: every char of a boundary-complete set, alone and between ASCII neighbours,
     // so that every UTF-8 lead byte and every continuation byte value 0x80..=0xBF occurs at every role
-    let chars = if tier == Tier::Miri { vec!['ñ', '\u{7FF}', '\u{800}', '€', '\u{FFFF}', '😀', '\u{10FFFF}'] } else { crate::common::char_set(tier) };
+    let chars = if tier == Tier::Miri { (if miri_deep() { vec!['ñ', '\u{7FF}', '\u{800}', '€', '\u{FFFF}', '😀', '\u{10FFFF}'] } else { vec!['ñ', '€', '😀'] }) } else { crate::common::char_set(tier) };
     let ctx: Vec<String> = chars.iter().flat_map(|c| if tier == Tier::Miri { vec![format!("a{c}b")] } else { vec![c.to_string(), format!("a{c}b"), format!("{c}{c}")] }).collect();
     let nctx = ctx.len();
     let r = par_each(&ctx, n_threads(tier), one_string);
